@@ -16,11 +16,15 @@ if ! git apply "$src/patch.diff" 2>/dev/null; then git apply --3way "$src/patch.
 git diff HEAD > "$wt/rebased.diff"
 suite=$(cargo test --workspace --no-fail-fast --offline 2>&1 | grep -E "^test result" | awk '{p+=$4; f+=$6} END {print p" passed "f" failed"}')
 name=demo_$(echo $id | tr 'A-Z-' 'a-z_')
-if [ "$where" = root ]; then tdir=tests; pkg=miniz_oxide_c_api; else tdir=miniz_oxide/tests; pkg=miniz_oxide; fi
+democmd() { cargo test -p $pkg --test $name --offline 2>&1; }
+if [ "$where" = root ]; then tdir=tests; pkg=miniz_oxide_c_api;
+elif [ "$where" = oxtest ]; then tdir=miniz_oxide_test/tests; pkg=miniz_oxide_test;
+elif [ "$where" = bb ]; then tdir=miniz_oxide/tests; pkg=miniz_oxide; democmd() { cargo test --manifest-path miniz_oxide/Cargo.toml --features block-boundary --test $name --offline 2>&1; };
+else tdir=miniz_oxide/tests; pkg=miniz_oxide; fi
 cp "$src/demo.rs" "$tdir/$name.rs"
-with=$(cargo test -p $pkg --test $name --offline 2>&1 | grep -E "^test result" | tail -1)
+with=$(democmd | grep -E "^test result" | tail -1)
 git checkout -q -- . 2>/dev/null; git reset -q --hard HEAD; cp "$src/demo.rs" "$tdir/$name.rs"
-without=$(cargo test -p $pkg --test $name --offline 2>&1 | grep -E "^test result" | tail -1)
+without=$(democmd | grep -E "^test result" | tail -1)
 echo "$id: suite-with-patch: $suite | demo with patch: $with | demo without: $without"
 ok=1
 echo "$suite" | grep -q " 0 failed" || ok=0
